@@ -312,7 +312,7 @@ def get_group_velocity(
         frequency_factor_to_THz=frequency_factor_to_THz,
     )
     gv.run([q])
-    return gv.group_velocity[0]
+    return gv.group_velocities[0]
 
 
 def _delta_dynamical_matrix(q, delta_q, dynmat):
